@@ -21,8 +21,8 @@ batch of well-typed values whose explicit size `Σ vsize (ser t v)` stays within
 `runRows … = ok root` — and `build_arrays` cannot refuse (`Props.C01.toMarrow_complete'`, i.e. `finish_totalH`; its typing
 hypothesis `typedFs` holds of every traced schema, `Props.C03.fromType_good`), so `to_marrow` succeeds (`C04_accept_traced`).  `from_type` itself succeeds on every walkable,
 mappable type within the pass budget (`C04_fromType_ok`): `C04_accept`, `C04_end_to_end` have no hypothesis about
-its result — and none about `ext` (the external float printers / chrono / decimal parsers): the former residual hypothesis
-`hext : ExtOK ext` is gone, a traced schema has no temporal column and the chrono parsers are never consulted
+its result — and none about `ext` (the external float printers / chrono / decimal parsers; no `ExtOK ext`):
+a traced schema has no temporal column and the chrono parsers are never consulted
 (`toMarrow_refuse_traced`, SaModel/Lemmas/C04Ext*.lean).
 -/
 namespace SaModel.Props.C04
@@ -61,7 +61,7 @@ theorem accept_hyps (c : Trace.Code) (O : Trace.Options) (ext : Ext) (n : String
 /-- **Acceptance, row by row.**  `t = struct n fs` in `fragE`, enums with 1 … 128 variants, any tracing options without
 overwrites, any batch of well-typed values in scope within the capacity bound: every `push` succeeds, and `to_marrow` is
 `build_arrays` of the final state.  Remaining hypothesis beside the documented ones: `hcap` (explicit capacity bound:
-offsets are `i32`).  No `Safe` (the former `hsafe : safeFs …`): `Props.C01.runRows_complete'`. -/
+offsets are `i32`).  No `Safe` (no `safeFs …`): `Props.C01.runRows_complete'`. -/
 theorem C04_accept_rows (c : Trace.Code) (O : Trace.Options) (ext : Ext) (n : String) (fs : TFields) (vs : List Val)
     (fields : List Field)
     (h0 : O.overwrites = []) (hfrag : fragE (.struct n fs) = true) (hsz : sized (.struct n fs) = true)
@@ -117,7 +117,7 @@ theorem length_of_cap (ext : Ext) (t : Ty) (vs : List Val)
 
 /-- **C04 end to end against a traced schema**: serialization against the schema `from_type` returned succeeds, and reading
 everything back returns the batch, normalised (`norm` is the identity for `plainOpt` types: `C04_norm_eq_self`).  The
-conclusion no longer has a premise about the arrays: `Read.physical` is derived from `hcap` (`C04_physical`).  For EVERY
+conclusion has no premise about the arrays: `Read.physical` is derived from `hcap` (`C04_physical`).  For EVERY
 `ext` (no `ExtOK`: `C04_roundtrip_bulk`). -/
 theorem C04_end_to_end_traced (c : Trace.Code) (O : Trace.Options) (ext : Ext) (n : String) (fs : TFields) (vs : List Val)
     (fields : List Field)
@@ -135,11 +135,11 @@ theorem C04_end_to_end_traced (c : Trace.Code) (O : Trace.Options) (ext : Ext) (
 /-- **C04 end to end** — the property itself: for a record type of the grammar (enums included) with at least one field that
 can be walked and mapped within the pass budget, `from_type` returns a schema, serializing any batch of well-typed values in
 scope against it succeeds, and reading everything back returns the batch, normalised.
-NO residual hypothesis, for EVERY `ext`.  The former `hext : ExtOK ext` (the external chrono parsers return values in range:
-asked unconditionally by `Props.C01.C03_wfS'`) is gone: traced schemas have no temporal column (`mapping_noTemporal`), so the
+NO residual hypothesis, for EVERY `ext`.  `ExtOK ext` (the external chrono parsers return values in range:
+asked unconditionally by `Props.C01.C03_wfS'`) is not needed: traced schemas have no temporal column (`mapping_noTemporal`), so the
 parsers are never consulted and the run is the same under `refuseExt ext`, whose parsers refuse (`toMarrow_refuse_traced`,
-`refuseExt_ok`).  The former premise `hphys` of the conclusion (`Read.physical`: the value count of a Dictionary column fits
-`i64`) is gone: derived from `hcap` (`C04_physical`, the builders' counting invariant).
+`refuseExt_ok`).  The conclusion has no premise about the arrays (`Read.physical`: the value count of a Dictionary column fits
+`i64`): it is derived from `hcap` (`C04_physical`, the builders' counting invariant).
 Everything left is a decidable condition on type × options (`fragE`, `sized`, `walkable`, `mappable`;
 NO `Safe` / `safeFs`), the documented exclusion `inScopeO` on the values, the pass budget and the capacity bound. -/
 theorem C04_end_to_end (c : Trace.Code) (O : Trace.Options) (ext : Ext) (n : String) (fs : TFields) (vs : List Val)
@@ -159,7 +159,7 @@ theorem C04_end_to_end (c : Trace.Code) (O : Trace.Options) (ext : Ext) (n : Str
 
 /-- **C04 end to end at the codec models — every option**: `C04_end_to_end` with the external string parsers instantiated by
 the models of C14 (`Props.C16.codecExt`, what the correspondence driver runs) — a direct corollary (the general theorem has no
-hypothesis about `ext` any more; formerly `ExtOK` was discharged here by `Props.C03.codecExt_ok`).  For every record type
+hypothesis about `ext`; `Props.C03.codecExt_ok`, `ExtOK` of the codec models, is not needed).  For every record type
 of the grammar (enums as Unions or — without data, under `enums_without_data_as_strings` — as dictionary-encoded strings; `string_dictionary_encoding`
 included) with at least one field that can be walked and mapped within the pass budget, `from_type` returns a schema,
 serializing any batch of well-typed values in scope (within the capacity bound) against it succeeds, and reading everything
@@ -265,11 +265,11 @@ example : ∃ arrs, toMarrow {} exDFields (exDBatch.map (ser exDRoot)) = .ok arr
   C04_accept_traced .fixed exDO {} "D" _ exDBatch exDFields rfl (by decide +kernel) (by decide +kernel) (by decide +kernel)
     (by decide +kernel) exDTrace (by decide +kernel)
 
-/-! ### the former `Safe` exclusion is inside the theorems now
+/-! ### a schema outside C01's `Safe` is inside the theorems
 
 A dictionary-encoded `String` directly below an `Option<struct>` makes `safeFs` false (C01's `dict_placeholder_unstable`
 shape: the `None` of the outer option sends the placeholder key 0 into NON-nullable dictionary keys); a nullable one
-(`Option<String>`) does not.  The former theorems assumed `safeFs`; the present ones do not: `exSafeFalse` below is
+(`Option<String>`) does not.  The theorems do not assume `safeFs`: `exSafeFalse` below is
 accepted and round-trips, every hypothesis discharged. -/
 def exSafeFalse : Ty := .struct "W" (.cons "o" false (.option (.struct "I" (.cons "s" false (.prim .str) .nil))) .nil)
 def exSafeTrue : Ty := .struct "W" (.cons "o" false (.option (.struct "I" (.cons "s" false (.option (.prim .str)) .nil))) .nil)
